@@ -82,6 +82,12 @@ class Executor(CallMixin, EvalMixin, ExprMixin, StmtMixin):
                 if k not in o.env: o.env[k] = v
             for s2, v in self.ev(node.args[0], o): yield st, v
             return
+        if name == "pre":
+            # current variables, heap of the function's pre-state: "the old fields of the object that is now at ..."
+            if st.old is None: raise VCError("pre() without pre-state")
+            o = st.fork(); o.env = dict(st.env); o.heap = dict(st.old.heap); o.old = None
+            for s2, v in self.ev(node.args[0], o): yield st, v
+            return
         if name in ("forall", "exists"):
             lam = node.args[-1]
             if not isinstance(lam, ast.Lambda): raise VCError("%s(T.., lambda ..)" % name)
@@ -218,6 +224,12 @@ class Executor(CallMixin, EvalMixin, ExprMixin, StmtMixin):
             sty = c.self_type
             if sty is None:
                 fam = R.CLASS_FAMILY.get("%s:%s" % (module, cls))
+                if fam is None:
+                    here = "%s:%s" % (module, cls)
+                    for f_, sch_ in R.SCHEMAS.items():
+                        for cq in sch_.classes:
+                            if cq.startswith("ext:"): continue
+                            if here in ["%s:%s" % (m_, n_.name) for m_, n_ in X.mro(*cq.split(":"))]: fam = f_
                 if fam is None: raise VCError("%s: no schema for class %s (self_type missing)" % (c.qual, cls))
                 sty = T.Obj(fam)
             selfv = SV(sty, fresh("self", sty), cls=c.ghost.get("self_class"))
